@@ -33,6 +33,8 @@ type Env struct {
 	O0   any
 	O1   any
 	O2   any
+	BadA any // argument for @attributes: a map, or an unsupported value when Fail[4]
+	BadC any // argument for a dynamic class list: a string, or an unsupported value when Fail[5]
 }
 
 var errInjected = errors.New("injected failure")
@@ -179,6 +181,13 @@ func decodeEnv(s string) *Env {
 		}
 	}
 	e.O0, e.O1, e.O2 = objs[0], objs[1], objs[2]
+	e.BadA, e.BadC = map[string]string{"ok": "1"}, "cls"
+	if len(e.Fail) > 4 && e.Fail[4] {
+		e.BadA = 42
+	}
+	if len(e.Fail) > 5 && e.Fail[5] {
+		e.BadC = 42
+	}
 	return e
 }
 
